@@ -34,7 +34,7 @@ BUDGET = {
     "C05": (1500, 60000), "C06": (250, 20000), "C07": (220, 25000), "C08": (600, 25000),
     "C09": (1200, 50000), "C10": (1500, 60000), "C11": (1500, 60000), "C12": (70, 6000),
     "C13": (500, 20000), "C14": (1000, 40000), "C15": (1500, 60000), "C16": (1200, 50000),
-    "C17": (600, 25000), "C18": (60, 2500), "C19": (1, 1), "C20": (500, 20000),
+    "C17": (600, 25000), "C18": (400, 4000), "C19": (1, 1), "C20": (500, 20000),
 }
 QUICK_SECONDS = 75          # wall-clock cap of a quick campaign (inconclusive past it, never a violation)
 THOROUGH_SECONDS = 900
